@@ -224,6 +224,10 @@ func runC09(c *core.Ctx) {
 				c.Count("runs_of_catalogue_shapes", 1)
 			}
 			args := append([]string{}, pre...)
+			if ci%2 == 1 && cmd[0] != "summary" {
+				// a period that keeps no day, every day or is inverted: the file is read and checked all the same
+				args = append(args, randomPeriod(r, func(y, m, d int) string { return gen.Date{Y: y, M: m, D: d}.Format(layout) })...)
+			}
 			for _, a := range cmd {
 				if a == "DATE" {
 					a = w.Log[0].Date.Format(layout)
